@@ -193,10 +193,40 @@ var fontWeights = []string{"normal", "bold", "bolder", "lighter", "100", "200", 
 var absUnits = []string{"px", "px", "pt", "pc", "in", "cm", "mm", "q", "%", ""}
 var fontRelUnits = []string{"em", "rem", "ex", "ch", "ex", "ch"}
 
+// percentages: what they refer to depends on the property (line-height, font-size,
+// vertical-align: resolved at computed-value time against the own / the parent's font size or
+// the own line height; widths, margins, text-indent ...: kept for layout)
+var pctNums = []string{"150", "50", "200", "120", "10", "33.3", "75", "-20", "100", "0", "62.5", "300"}
+
+func randPct(r *vlib.Rng) string { return vlib.Pick(r, pctNums) + "%" }
+
+// the properties whose grammar has a <percentage> (the validators drop it elsewhere)
+var pctProps = []string{"line-height", "line-height", "line-height", "font-size", "font-size", "vertical-align", "vertical-align",
+	"text-indent", "width", "height", "min-width", "min-height", "max-width", "max-height", "margin-left", "margin-top",
+	"margin-right", "margin-bottom", "padding-left", "padding-top", "padding-right", "padding-bottom", "top", "left", "right",
+	"bottom", "flex-basis", "column-gap", "row-gap", "word-spacing", "letter-spacing", "hyphenate-limit-zone", "tab-size",
+	"border-top-width", "outline-offset", "column-width", "bleed-top"}
+
+var pctPointProps = []string{"border-top-left-radius", "border-bottom-right-radius", "transform-origin", "border-spacing", "background-position", "background-size", "size"}
+
+func pctDecl(r *vlib.Rng) string {
+	if r.Chance(1, 8) {
+		return vlib.Pick(r, pctPointProps) + ":" + randPct(r) + " " + vlib.Pick(r, []string{randPct(r), relLength(r), "3px"})
+	}
+	p := vlib.Pick(r, pctProps)
+	d := p + ":" + randPct(r)
+	if p == "vertical-align" && r.Bool() { // the percentage refers to the element's own line height
+		d += ";line-height:" + vlib.Pick(r, []string{"1.5", "150%", "30px", "2", "1.2em", "0.8", "3ex", "normal"})
+	}
+	return d
+}
+
 func randLength(r *vlib.Rng) string {
 	n := vlib.Pick(r, lengthNums)
 	var u string
 	switch k := r.Intn(20); {
+	case k < 3:
+		return randPct(r)
 	case k < 10:
 		u = vlib.Pick(r, absUnits)
 	case k < 18:
@@ -223,6 +253,8 @@ func relDecls(r *vlib.Rng) string {
 	var parts []string
 	for i, n := 0, r.Range(1, 4); i < n; i++ {
 		switch r.Intn(8) {
+		case 2, 3:
+			parts = append(parts, pctDecl(r))
 		case 0:
 			parts = append(parts, "transform:"+vlib.Pick(r, transformValues[:5]))
 		case 1:
@@ -384,6 +416,18 @@ func randDecls(r *vlib.Rng, max int) string {
 	return strings.Join(parts, ";")
 }
 
+// `--v: inherit | initial | <garbage>` and properties that take their value from it
+func varDecls(r *vlib.Rng) string {
+	v := vlib.Pick(r, varNames)
+	parts := []string{"--" + v + ":" + vlib.Pick(r, []string{"inherit", "inherit", "initial", "bogus!", "12px", ""})}
+	for i, n := 0, r.Range(1, 3); i < n; i++ {
+		p := vlib.Pick(r, []string{"color", "text-indent", "font-weight", "line-height", "font-size", "width", "display",
+			"margin-left", "letter-spacing", "text-align-all", "border-top-width", "tab-size", "visibility", "float"})
+		parts = append(parts, p+":var(--"+v+")")
+	}
+	return strings.Join(parts, ";")
+}
+
 // ---------------------------------------------------------------- documents
 
 var tags = []string{"x-a", "x-b", "x-c", "div", "p", "span", "ul", "ol", "li", "h1", "h3", "a", "b", "strong", "small",
@@ -416,6 +460,9 @@ func genDoc(r *vlib.Rng) docSrc {
 		style := randDecls(r, maxDecl)
 		if r.Chance(2, 5) { // elements sharing a rule get different font sizes
 			style += ";font-size:" + vlib.Pick(r, []string{"10px", "20px", "40px", "2em", "0.5em", "150%", "larger", "1.5rem", "2ex", "3ch", "12pt", "x-large"})
+		}
+		if r.Chance(1, 4) { // a percentage, on an element whose descendants have other font sizes
+			style += ";" + pctDecl(r)
 		}
 		class := ""
 		if r.Bool() {
@@ -479,6 +526,14 @@ func genDoc(r *vlib.Rng) docSrc {
 		fmt.Fprintf(&css, "%s{%s}\n", vlib.Pick(r, tags), randDecls(r, maxDecl))
 	}
 	rootStyle, bodyStyle := randDecls(r, maxDecl), randDecls(r, maxDecl)
+	// a custom property holding a CSS-wide keyword (or garbage), substituted into inherited and
+	// non-inherited properties: on the root "inherit" must still mean the initial value
+	if r.Chance(1, 3) {
+		rootStyle += ";" + varDecls(r)
+	}
+	if r.Chance(1, 6) {
+		bodyStyle += ";" + varDecls(r)
+	}
 	if r.Chance(2, 3) {
 		rootStyle += ";font-family:" + vlib.Pick(r, fontFamilies)
 	}
@@ -667,9 +722,11 @@ func (w *world) collectElements() {
 	}
 }
 
-func relUnit(u pr.Unit) bool { return u == pr.Em || u == pr.Rem || u == pr.Ex || u == pr.Ch }
+func relUnit(u pr.Unit) bool {
+	return u == pr.Em || u == pr.Rem || u == pr.Ex || u == pr.Ch || u == pr.Perc
+}
 
-// does the declared value hold a length relative to the font size or to the font?
+// does the declared value hold a length relative to the font size or to the font, or a percentage?
 func fontRelative(v pr.DeclaredValue) bool {
 	switch x := v.(type) {
 	case pr.DimOrS:
@@ -830,6 +887,14 @@ func structuralTags(w *world, tags map[string]bool) {
 			}
 			if k.KnownProp == pr.PTransform {
 				tags["transform"] = true
+			}
+			if d, ok := v.(pr.DimOrS); ok && d.Unit == pr.Perc {
+				switch k.KnownProp {
+				case pr.PLineHeight, pr.PFontSize, pr.PVerticalAlign, pr.PTextIndent, pr.PWidth:
+					tags["pct:"+k.KnownProp.String()] = true
+				default:
+					tags["pct:other"] = true
+				}
 			}
 		}
 	}
